@@ -85,3 +85,20 @@ def run(ctx):
         ctx.evaluations += len(c["steps"])
         ctx.distinct.add(("duphist", c["case"]))
     ctx.extra["duplicate_then_continue_histories"] = hn
+    # the same on the transport path, with the REAL graphsync adapter: the duplicate arrives on a second graphsync request, is refused, and graphsync
+    # reports that request as finished - the existing channel hears nothing of it
+    bl = ctx.go_bin("lockx")
+    da = ctx.path("dupadapter.ndjson")
+    ctx.must_run_go(bl, "TestDuplicateOnAdapter", env={"VERIF_OUT": da}, timeout=300)
+    nda, dav = stages.judge(ctx, da, module="EqualsJudge")
+    didx = stages.index_obs(da)
+    for v in dav:
+        c = didx[v["case"]]
+        if v["rule"] == "harness":
+            raise vlib.Inconclusive("TestDuplicateOnAdapter: " + c["err"])
+        ctx.violation({"rule": "C18.dupLeavesBehaviour", "via": "adapter", "op": v["op"]}, "C18.dupLeavesBehaviour violated (%s): a refused duplicate new-request on a second graphsync request (and "
+                      "graphsync's completion notice for it) changed the existing channel: %d events / status-or-message change" % (v["case"], c["left"]), detail=c)
+    for c in didx.values():
+        ctx.traces += 1
+        ctx.evaluations += 1
+        ctx.distinct.add(("dupadapter", c["case"]))
